@@ -18,7 +18,11 @@ RULE = ("Hypothesis-generated programs for the 8 buffered classes: the main thre
         "remove, reset, clear) on 1-3 files through one or two objects per file (threads may share an "
         "object or a file, or use distinct files); a thread may additionally own a PRIVATE object (used by "
         "no other thread) on any of the files and issue single-step reads through it; the main thread "
-        "leaves the context after joining. "
+        "leaves the context after joining. Half of the programs come from two steered families: (i) the "
+        "buffer already holds a modified file and a reader's first load of another file forces the "
+        "flush while a writer makes its first buffered access to that file; (ii) a thread reads "
+        "through its own object while another thread's growing operation pushes the buffer over a "
+        "capacity of one or two documents and so flushes every buffered collection. "
         "Executed under the deterministic scheduler (all single-preemption schedules when <=1600, "
         "otherwise all distinct preemption sites; plus sampled 2-3 preemption schedules). Oracle: no "
         "operation outcome other than what some serial order of the operations gives on the plain "
@@ -37,8 +41,69 @@ def shards(tier):
     return [{"cls": c.name, "rep": r} for c in BUFFERED for r in range(reps)]
 
 
+def draw_read_forced_flush(draw, ci):
+    """Steered family: the buffer already holds a modified file; a reader's FIRST load of another
+    file pushes the buffer over capacity, so the READER runs the forced flush (outside the buffer
+    lock) while a writer on a second object makes its first buffered access to that file."""
+    kind = ci.kind
+    docs = [{"a": 0, "b": [1]} if kind == "dict" else [0, 1, "s"], {"a": 1, "b": [1]} if kind == "dict" else [1, 1, "s"]]
+    handles = [{"file": 0}, {"file": 0}, {"file": 1}]
+    kinds = [kind] * 3
+    rd = ({"m": "len", "a": []} if draw(st.booleans()) else
+          ({"m": "getitem", "a": enc(["a"])} if kind == "dict" else {"m": "getitem", "a": enc([0])}))
+    wr = c09.dict_op(draw, restricted=True) if kind == "dict" else c09.list_op(draw, 3, restricted=True)
+    threads = [[dict(rd, h=0)] + ([dict(rd, h=0)] if draw(st.booleans()) else []), [dict(wr, h=1)]]
+    if draw(st.integers(0, 2)) == 0:
+        w2 = c09.dict_op(draw, restricted=True) if kind == "dict" else c09.list_op(draw, 3, restricted=True)
+        threads.append([dict(w2, h=draw(st.sampled_from([1, 2])))])
+    pre = [dict({"m": "setitem", "a": enc(["p", 1])} if kind == "dict" else {"m": "append", "a": enc(["p"])}, h=2)]
+    cap = draw(st.sampled_from([20, 30, 45, 1])) if ci.buffered == "serialized" else draw(st.sampled_from([1, 1, 2]))
+    return {"property": ID, "class": ci.name, "docs": [enc(d) for d in docs], "root_kinds": [kind] * 2,
+            "handles": handles, "kinds": kinds, "threads": threads, "buffered": {"cap": cap},
+            "pre_ops": pre, "family": "read_forced_flush"}
+
+
+def draw_flush_over_reader(draw, ci):
+    """Steered family: a thread reads through its own object while a writer's GROWING operation on
+    the same file (through another object) or on another file pushes the buffer over a capacity of
+    about one or two documents, so the writer's thread runs a forced flush over every buffered
+    collection - the reader's object included."""
+    kind = ci.kind
+    F = draw(st.sampled_from([1, 1, 2]))
+    docs = [({"a": i, "b": [1]} if kind == "dict" else [i, 1, "s"]) for i in range(F)]
+    handles = [{"file": 0}, {"file": 0}] + ([{"file": 1}] if F == 2 else [])
+    kinds = [kind] * len(handles)
+    reads = ([{"m": "getitem", "a": enc(["a"])}, {"m": "len", "a": []}, {"m": "contains", "a": enc(["c"])}]
+             if kind == "dict" else [{"m": "getitem", "a": enc([0])}, {"m": "len", "a": []}])
+    rt = [dict(draw(st.sampled_from(reads)), h=1) for _ in range(draw(st.integers(1, 2)))]
+    big = draw(st.sampled_from([{"n": 1}, [1], {"n": [1, 2]}, "sssssss"]))
+    if kind == "dict":
+        grow = draw(st.sampled_from([{"m": "setitem", "a": enc(["c", big])}, {"m": "update", "a": enc([{"c": big, "a": big}])},
+                                     {"m": "setdefault", "a": enc(["c", big])}]))
+    else:
+        grow = draw(st.sampled_from([{"m": "append", "a": enc([big])}, {"m": "insert", "a": enc([2, big])},
+                                     {"m": "extend", "a": enc([[big, 1]])}]))
+    others = [0] + ([2] if F == 2 else [])      # handle 1 is the reader's private object
+    wh = draw(st.sampled_from([0] + others))
+    threads = [rt, [dict(grow, h=wh)]]
+    if draw(st.integers(0, 2)) == 0:
+        extra = c09.dict_op(draw, restricted=True) if kind == "dict" else c09.list_op(draw, 3, restricted=True)
+        threads.append([dict(extra, h=draw(st.sampled_from(others)))])
+    pre = [dict({"m": "setitem", "a": enc(["p", 1])} if kind == "dict" else {"m": "append", "a": enc(["p"])},
+                h=draw(st.sampled_from(others))) for _ in range(draw(st.integers(0, 2)))]
+    cap = draw(st.sampled_from([30, 45, 60, 20])) if ci.buffered == "serialized" else draw(st.sampled_from([1, 1, 2, 0]))
+    return {"property": ID, "class": ci.name, "docs": [enc(d) for d in docs], "root_kinds": [kind] * F,
+            "handles": handles, "kinds": kinds, "threads": threads, "buffered": {"cap": cap},
+            "pre_ops": pre, "family": "flush_over_reader"}
+
+
 def draw_program(draw, ci):
     kind = ci.kind
+    fam = draw(st.sampled_from([0, 1, 2, 3, 4, 5]))
+    if fam == 1:
+        return draw_read_forced_flush(draw, ci)
+    if fam in (2, 3):
+        return draw_flush_over_reader(draw, ci)
     F = draw(st.integers(1, 3))
     docs = []
     for i in range(F):
@@ -135,6 +200,8 @@ def run_shard(spec, seed, tier, active):
                 fail = (sc, d)
         acc.counters["programs"] += 1
         acc.counters[f"cap={program['buffered']['cap']}"] += 1
+        if program.get("family"):
+            acc.counters["family." + program["family"]] += 1
         if len(acc.samples) < 3:
             acc.samples.append({"program": {k: program[k] for k in ("class", "handles", "threads", "buffered")},
                                 "schedules_executed": len(allsched)})
